@@ -51,7 +51,10 @@ def check(ctx):
     if g is not None and g[0] == 'FDIFF' and g[1] == 'W1':
         msg = f'only the `{g[2]}1` image correction is applied: bonds crossing a cell face in the other direction keep a length of about one cell'
     elif g == ('FDIFF', 'W2'):
-        msg = 'no image correction: bonds crossing a cell face are a lattice vector too long'
+        mism = [e for e in it.events if e['tag'] == 'image_correction' and e.get('how') == 'mismatch']
+        msg = ('no image correction: bonds crossing a cell face are a lattice vector too long' if not mism else
+               f'the image shift is computed from `{mism[0].get("source")}` and not from the vectors it is applied to: bonds whose periodic image '
+               f'changes later (an atom crossing a cell face) are a lattice vector too long')
     else:
         msg = f'returned directions are {geo_text(g)}'
     ctx.ob('R1', fd, 'return value', True if ok else (None if g is None else False), 'minimum-image fractional bond vectors' if ok else msg)
@@ -206,10 +209,44 @@ def check_spherical(ctx):
 
 def check_autocorr(ctx):
     fa = ctx.fn(f'{OR}.autocorrelation')
+    # evaluate autocorrelation on an object whose vectors were computed by __post_init__ (Cartesian bond vectors)
+    from ..interp import const
+    it = ctx.entry(f'{OR}.__post_init__', args={'in_vectors': const(None)})
+    if it.entry_self is not None and not getattr(it, '_autocorr_done', False):
+        it._autocorr_done = True
+        it.call_function(fa, [], {}, it.final_state, self_av=it.entry_self, node=None)
+    kind_errors(ctx, 'R4', it, lambda f: f.qualname == 'gemdat.utils.fft_autocorrelation')
     calls = [n for n in ast.walk(fa.node) if isinstance(n, ast.Call)]
     ok = any(norm_text(n.func).endswith('fft_autocorrelation') and n.args and norm_text(n.args[0]) == 'self.vectors' for n in calls)
     ctx.ob('R4', fa, 'fft_autocorrelation(self.vectors)', True if ok else None, 'autocorrelation of the orientation vectors' if ok else 'call not recognised')
     ff = ctx.fn('gemdat.utils.fft_autocorrelation')
+    # forward and inverse real transforms must use the same length: irfft defaults to 2 * (m - 1), which differs from an odd n
+    from .C08 import linear
+    rf = [n for n in ast.walk(ff.node) if isinstance(n, ast.Call) and norm_text(n.func).endswith('.rfft')]
+    irf = [n for n in ast.walk(ff.node) if isinstance(n, ast.Call) and norm_text(n.func).endswith('.irfft')]
+    for r_ in rf:
+        n_fwd = next((k.value for k in r_.keywords if k.arg == 'n'), r_.args[1] if len(r_.args) > 1 else None)
+        for i_ in irf:
+            n_inv = next((k.value for k in i_.keywords if k.arg == 'n'), i_.args[1] if len(i_.args) > 1 else None)
+            if n_fwd is None:
+                ctx.ob('R4', ff, i_, None, 'forward transform without explicit length')
+                continue
+            lin = linear(n_fwd)
+            odd = None
+            if lin is not None and all(v.denominator == 1 for v in list(lin[0].values()) + [lin[1]]):
+                if all(int(v) % 2 == 0 for v in lin[0].values()):
+                    odd = int(lin[1]) % 2 == 1
+            if n_inv is not None:
+                same = norm_text(n_inv).replace(' ', '') == norm_text(n_fwd).replace(' ', '')
+                ctx.ob('R4', ff, i_, True if same else None, 'inverse transform of the same length as the forward transform' if same else 'lengths not comparable')
+            elif odd is True:
+                ctx.ob('R4', ff, i_, False,
+                       f'the forward transform has the odd length n = {norm_text(n_fwd)} but np.fft.irfft without n returns 2 * (m - 1) = n - 1 samples: '
+                       f'the inverse is taken on a different grid, so the autocorrelation is not the time-origin-averaged dot product')
+            elif odd is False:
+                ctx.ob('R4', ff, i_, True, 'even length: the default inverse length equals n')
+            else:
+                ctx.ob('R4', ff, i_, None, 'parity of the transform length unknown and irfft has no explicit length')
     divs = [n for n in ast.walk(ff.node) if isinstance(n, ast.BinOp) and isinstance(n.op, ast.Div) and isinstance(n.right, ast.Subscript)
             and norm_text(n.left) == norm_text(n.right.value)]
     found = False
